@@ -40,6 +40,13 @@ Theorem C03_encode_bits : forall m st k,
 Proof. exact frame_bits. Qed.
 Print Assumptions C03_encode_bits.
 
+(** when every signal lies inside the first msg_length bytes, the payload is zero from there on *)
+Theorem C03_zero_beyond_length : forall m st k,
+  wf_message m -> fits_message m -> inv (msg_signals m) st = true -> 0 <= msg_length m ->
+  8 * msg_length m <= k < 64 -> pbit (fr_data (frame_of m st)) k = false.
+Proof. exact frame_zero_beyond_length. Qed.
+Print Assumptions C03_zero_beyond_length.
+
 (** DECODE. A matching frame is accepted; every non-multiplexed field becomes the value read at its
     signal's layout, a multiplexed field is replaced only when the (freshly decoded) multiplexer
     field equals its selector, otherwise it is left unchanged *)
